@@ -675,6 +675,17 @@ func (fl *Flow) cmpInto(fs *FactSet, a ast.Expr, op token.Token, b ast.Expr, val
 	case token.EQL:
 		addLE(d)
 		addLE(d.scale(-1))
+	case token.NEQ:
+		// x != 0 with x non-negative by its type (unsigned, len): x ≥ 1
+		if lb.isConst() && lb.c == 0 && fl.z.nonNeg(la) {
+			l := la.scale(-1)
+			l.c++
+			addLE(l) // 1 - a ≤ 0
+		} else if la.isConst() && la.c == 0 && fl.z.nonNeg(lb) {
+			l := lb.scale(-1)
+			l.c++
+			addLE(l)
+		}
 	}
 }
 
@@ -729,6 +740,17 @@ func (fl *Flow) defineInto(fs *FactSet, id *ast.Ident, e ast.Expr) {
 			f()
 		}
 	}()
+	// b := make([]T, n): len(b) == n
+	if call, ok := ast.Unparen(e).(*ast.CallExpr); ok && isBuiltinCall(fl.info, call, "make") && len(call.Args) >= 2 {
+		if _, isSlice := v.Type().Underlying().(*types.Slice); isSlice {
+			if ln, ok := fl.z.lin(call.Args[1]); ok {
+				atom := "len(" + fl.raw.canon(id) + ")"
+				fl.at.addSide(atom, linAtom(atom).scale(-1))
+				fs.add(fl.linFact(linAtom(atom).add(ln, -1), origin+" (make)", id, call.Args[1]))
+				fs.add(fl.linFact(ln.add(linAtom(atom), -1), origin+" (make)", id, call.Args[1]))
+			}
+		}
+	}
 	if fl.pureExpr(e) {
 		f := fl.mkFact(&Fact{Kind: FAlias, L: id, R: e, Origin: origin}, id, e)
 		f.raw = fmt.Sprintf("alias:%s=%s", varID(v), fl.raw.canon(e))
